@@ -12,7 +12,7 @@ from ..engine import cfg as cfgmod, typestate
 from ..engine.facts import dotted, const, src, walk_func, enclosing_stmt, ancestors
 from . import skeletons as sk
 from ..engine import pattern as P
-from .common import calls, stmt_nodes, norm_successors, contains, raise_names, pn, access_paths, assigned_from, arms, branch_paths, guards_of
+from .common import calls, stmt_nodes, norm_successors, contains, raise_names, pn, access_paths, assigned_from, arms, branch_paths, guards_of, atomic_facts, facts_at, resolve, resolve_deep
 from . import c16  # render-isolation is registered there for C13 as well
 
 DEF_CONSTRUCTS = ["write_render_callable", "write_inline_def"]
@@ -226,13 +226,16 @@ def handlers(ctx):
     ctx.require(hs, "_include_file has no except clause (anchor)")
     h = hs[0]
     # the handler's verdict: a local holding it, or the call itself
-    verdicts = {src(s.targets[0]) for s in ast.walk(h) if isinstance(s, ast.Assign) and "include_error_handler" in src(s.value)}
-    verdicts |= {src(c_) for c_ in ast.walk(h) if isinstance(c_, ast.Call) and (dotted(c_.func) or "").endswith(".include_error_handler")}
+    verdicts = {src(s.targets[0]) for s in ast.walk(h) if isinstance(s, ast.Assign) and "include_error_handler" in src(resolve_deep(inc, s.value, 2))}
+    verdicts |= {src(c_) for c_ in ast.walk(h) if isinstance(c_, ast.Call) and (dotted(resolve_deep(inc, c_.func, 2)) or "").endswith(".include_error_handler")}
     bare = [r for r in ast.walk(h) if isinstance(r, ast.Raise) and r.exc is None]
-    ok = bool(bare) and all(any((v_, False) in guards_of(r, h) for v_ in verdicts) for r in bare)
-    # ... and nothing else ends the handler on the falsy path
+    # every way through the handler that does not end in a bare `raise` has seen the handler's verdict come out true
+    ok = bool(bare) and bool(verdicts)
     for p_ in branch_paths(h.body):
-        if any(p_.holds(v_, False) for v_ in verdicts) and not (isinstance(p_.exit, ast.Raise) and p_.exit.exc is None):
+        if isinstance(p_.exit, ast.Raise) and p_.exit.exc is None:
+            continue
+        fa = atomic_facts(p_.conds)
+        if not any((v_, True) in fa for v_ in verdicts):
             ok = False
     ctx.check(ok, "include.reraise", db.where(h), "include_error_handler returning a falsy value does not re-raise the original exception with a bare `raise`", "`if not result: raise`")
     ctx.check(h.type is not None and src(h.type) == "Exception", "include.catches", db.where(h), "include handler catches %s" % (src(h.type) if h.type else "everything"), "catches Exception only")
